@@ -630,9 +630,33 @@ func (e *env) runCase(cd caseDef) {
 			})
 		}
 	} else {
+		// a validator client that gives up: a quarter of the INVALID submissions are made with a request context that
+		// is already cancelled, ends within the first milliseconds, or is cancelled after a seeded number of the
+		// target's scheduling steps - an abandoned request must not let an unverified partial signature through
+		abandon := 0
+		if !control && !valid && verifrt.Intn("f", 4) == 3 {
+			abandon = 1 + verifrt.Intn("f", 3)
+			verifrt.Fault("vc-request-abandoned")
+		}
 		verifrt.GoNode(e.tn.Tag, func() {
 			ctx, cancel := context.WithTimeout(e.tn.Ctx, 3*time.Second)
 			defer cancel()
+			switch abandon {
+			case 1:
+				cancel()
+			case 2:
+				var c2 context.CancelFunc
+				ctx, c2 = context.WithTimeout(ctx, time.Duration(verifrt.Intn("f", 4))*time.Millisecond)
+				defer c2()
+			case 3:
+				steps := verifrt.Intn("f", 40)
+				verifrt.Go(func() {
+					for k := 0; k < steps; k++ {
+						verifrt.Yield()
+					}
+					cancel()
+				})
+			}
 			err := in.submit(ctx, e.tn, carried)
 			e.mu.Lock()
 			ret.done, ret.err = true, err
